@@ -1,14 +1,89 @@
 package props
 
 import (
+	"encoding/json"
+	"fmt"
+	"strconv"
+
+	"github.com/elnosh/gonuts/cashu"
+	"github.com/elnosh/gonuts/cashu/nuts/nut12"
+
 	"verif/harness/bfs"
 	"verif/harness/mintops"
 	"verif/harness/rt"
+	"verif/harness/world"
 )
 
 // C10, history part: every signature the mint emits in a mint / swap / rotation / restart search (the C15 alphabet)
 // is verified on the fly against the PUBLISHED key with nut12.VerifyBlindSignatureDLEQ and, unblinded with r, with
 // nut12.VerifyProofDLEQ (mintops.recordSigs); restored signatures are compared with the originals by C15's probe.
+
+// c10HTTPProbe: what a wallet actually receives over HTTP must verify against the B_ it actually sent: a mint request
+// and a second request for the same quote with other outputs, a swap and a second swap of the same inputs with other
+// outputs; every 200 answer's signatures are checked with nut12.VerifyBlindSignatureDLEQ under the published key.
+func c10HTTPProbe(w *mintops.W) {
+	x := &c20{w: w}
+	r := x.call("GET", "/v1/keysets", "\x00nobody")
+	if l, _ := r.obj["keysets"].([]any); r.code == 200 {
+		for _, e := range l {
+			if k, _ := e.(map[string]any); k != nil {
+				if a, _ := k["active"].(bool); a {
+					x.act, _ = k["id"].(string)
+					if f, ok := k["input_fee_ppk"].(json.Number); ok {
+						x.ppk, _ = strconv.ParseUint(f.String(), 10, 64)
+					}
+				}
+			}
+		}
+	}
+	if x.act == "" {
+		return
+	}
+	keys := w.M.Keys(x.act)
+	verify := func(where string, r resp, outs []world.Out) cashu.BlindedSignatures {
+		if r.code != 200 || r.obj == nil {
+			return nil
+		}
+		var body struct {
+			Signatures cashu.BlindedSignatures `json:"signatures"`
+		}
+		if json.Unmarshal([]byte(r.raw), &body) != nil || len(body.Signatures) != len(outs) {
+			w.Viol("C10", "http/"+where+"/signature-count", "%s: %d signatures for %d outputs", where, len(body.Signatures), len(outs))
+			return nil
+		}
+		for i, sg := range body.Signatures {
+			K := keys[sg.Amount]
+			if K == nil || sg.DLEQ == nil || !nut12.VerifyBlindSignatureDLEQ(*sg.DLEQ, K, outs[i].Msg.B_, sg.C_) {
+				w.Viol("C10", "http/"+where+"/dleq-invalid-for-sent-output", "%s: the signature returned for output %d does not verify (DLEQ) under the published key for the B_ that was sent", where, i)
+				return nil
+			}
+		}
+		return body.Signatures
+	}
+	qid, qh := x.mintQuote(8, "")
+	if qid == "" || qh == "" {
+		return
+	}
+	w.LN.Settle(qh)
+	o1 := w.U.Outputs(x.act, 4, 4)
+	o2 := w.U.Outputs(x.act, 4, 4)
+	s1 := verify("mint", x.call("POST", "/v1/mint/bolt11", fmt.Sprintf(`{"quote":%q,"outputs":%s}`, qid, outsJSON(o1))), o1)
+	verify("mint-again-other-outputs", x.call("POST", "/v1/mint/bolt11", fmt.Sprintf(`{"quote":%q,"outputs":%s}`, qid, outsJSON(o2))), o2)
+	if s1 == nil {
+		return
+	}
+	ps, err := world.Unblind(s1, o1, keys)
+	if err != nil {
+		return
+	}
+	net := 4 - x.fee(1)
+	if net == 0 {
+		return
+	}
+	o3, o4 := x.outsFor(net), x.outsFor(net)
+	verify("swap", x.call("POST", "/v1/swap", fmt.Sprintf(`{"inputs":%s,"outputs":%s}`, insJSON(ps[:1]), outsJSON(o3))), o3)
+	verify("swap-again-other-outputs", x.call("POST", "/v1/swap", fmt.Sprintf(`{"inputs":%s,"outputs":%s}`, insJSON(ps[:1]), outsJSON(o4))), o4)
+}
 
 func c10HistSpecs(quick bool) []*bfs.Spec {
 	d := 2
@@ -16,7 +91,7 @@ func c10HistSpecs(quick bool) []*bfs.Spec {
 		d = 4
 	}
 	sfx := map[bool]string{true: "-q", false: ""}[quick]
-	return []*bfs.Spec{{Prop: "C10", Name: "C10-history" + sfx, Cfg: mintops.Config{Fee: 0}, Init: []string{"fund|8,4,2,1"}, Menu: c15Menu, Depth: d}}
+	return []*bfs.Spec{{Prop: "C10", Name: "C10-history" + sfx, Cfg: mintops.Config{Fee: 0}, Init: []string{"fund|8,4,2,1"}, Menu: c15Menu, Probe: c10HTTPProbe, Depth: d}}
 }
 
 var c10HistAll = specMap(c10HistSpecs(true), c10HistSpecs(false))
